@@ -34,9 +34,15 @@ theories/InterpAlg.vos theories/InterpAlg.vok theories/InterpAlg.required_vos: t
 theories/FloorTrick.vo theories/FloorTrick.glob theories/FloorTrick.v.beautified theories/FloorTrick.required_vo: theories/FloorTrick.v 
 theories/FloorTrick.vio: theories/FloorTrick.v 
 theories/FloorTrick.vos theories/FloorTrick.vok theories/FloorTrick.required_vos: theories/FloorTrick.v 
-theories/FloatTricks.vo theories/FloatTricks.glob theories/FloatTricks.v.beautified theories/FloatTricks.required_vo: theories/FloatTricks.v theories/Base.vo theories/Sem.vo theories/FloorTrick.vo
-theories/FloatTricks.vio: theories/FloatTricks.v theories/Base.vio theories/Sem.vio theories/FloorTrick.vio
-theories/FloatTricks.vos theories/FloatTricks.vok theories/FloatTricks.required_vos: theories/FloatTricks.v theories/Base.vos theories/Sem.vos theories/FloorTrick.vos
+theories/RoundTricks.vo theories/RoundTricks.glob theories/RoundTricks.v.beautified theories/RoundTricks.required_vo: theories/RoundTricks.v theories/FloorTrick.vo
+theories/RoundTricks.vio: theories/RoundTricks.v theories/FloorTrick.vio
+theories/RoundTricks.vos theories/RoundTricks.vok theories/RoundTricks.required_vos: theories/RoundTricks.v theories/FloorTrick.vos
+theories/FloatTricks.vo theories/FloatTricks.glob theories/FloatTricks.v.beautified theories/FloatTricks.required_vo: theories/FloatTricks.v theories/Base.vo theories/Sem.vo theories/FloorTrick.vo theories/RoundTricks.vo
+theories/FloatTricks.vio: theories/FloatTricks.v theories/Base.vio theories/Sem.vio theories/FloorTrick.vio theories/RoundTricks.vio
+theories/FloatTricks.vos theories/FloatTricks.vok theories/FloatTricks.required_vos: theories/FloatTricks.v theories/Base.vos theories/Sem.vos theories/FloorTrick.vos theories/RoundTricks.vos
 theories/Erase.vo theories/Erase.glob theories/Erase.v.beautified theories/Erase.required_vo: theories/Erase.v theories/Base.vo
 theories/Erase.vio: theories/Erase.v theories/Base.vio
 theories/Erase.vos theories/Erase.vok theories/Erase.required_vos: theories/Erase.v theories/Base.vos
+theories/Modular.vo theories/Modular.glob theories/Modular.v.beautified theories/Modular.required_vo: theories/Modular.v theories/Base.vo
+theories/Modular.vio: theories/Modular.v theories/Base.vio
+theories/Modular.vos theories/Modular.vok theories/Modular.required_vos: theories/Modular.v theories/Base.vos
